@@ -31,7 +31,7 @@ PLAN = {
     "C08": dict(engine="vsim", level="exploration"),
     "C09": dict(engine="vsim", level="exploration", extra=["vproc"]),
     "C10": dict(engine="vsim", level="exploration"),
-    "C11": dict(engine="vsim", level="exploration", extra=["vconc"]),
+    "C11": dict(engine="vsim", level="exploration", extra=["vconc", "vproc"]),
     "C12": dict(engine="vconc", level="exploration", race=True, extra=["vproc", "vfront"]),
     "C13": dict(engine="vproc", level="exploration", server=True),
     "C14": dict(engine="vsim", level="exploration", extra=["vproc"]),
